@@ -10,7 +10,8 @@ from ..core import Check, Space
 BODIES = {
     ("Int",): ["x", "x + 1", "(x, 1)", "(x if x > 1 else 0)", "(lambda y: y + x)(2)", "(lambda x: x + 1)(x)",
                "(lambda v, s=2: v * s)(x + 1)", "(lambda *a: a[0] + 1)(x)", "(lambda v, s=2: v * s)(x + 1, s=x)",
-               "(lambda v: (lambda w=3: w + v)())(x)"],
+               "(lambda v: (lambda w=3: w + v)())(x)", "(lambda t: (lambda t_1: t + x))(1)(2)",
+               "(lambda t: (lambda t_1, t_2=5: t + x + t_2))(1)(2)"],
     ("Jet",): ["x", "x.pt", "x.tr.Select(lambda t: t.q + x.pt)", "x.tr.Select(lambda x: x.q)",
                "x.tr.Where(lambda t: t.q > x.eta).Count()", "x.tr.Select(lambda j: (j.q, x.pt))",
                "[t.q + x.pt for t in x.tr]", "x.tr.Select(lambda t: (lambda x: x + 1)(t.q))", "[x.q for x in x.tr]",
@@ -18,6 +19,9 @@ BODIES = {
     ("Ev",): ["x.jets.Select(lambda j: j.pt + x.a)", "x.jets.Select(lambda x: x.pt)", "x.a",
               "x.jets.Where(lambda j: j.pt > x.a).Count()", "x.jets.Select(lambda e: e.pt + x.a)"],
     ("Int", "Int"): ["x - y", "(x, y)", "(y, x)", "x"],
+    # helpers that return a (curried) function; the call site applies it
+    ("Int*",): ["lambda t: (lambda t_1: t + x)", "lambda t: (lambda t_1, t_2=0: t + x + t_2)", "lambda t: (lambda u: t + x + u)",
+                "lambda t: (lambda x_1: (t, x))", "lambda x_1: (lambda t: (x_1, x))"],
     ("Ev", "Int"): ["x.jets.Select(lambda j: j.tr.Select(lambda t: t.q + y))",
                     "x.jets.Select(lambda j: j.tr.Select(lambda e: e.q + y))",
                     "x.jets.Select(lambda t: t.tr.Select(lambda j: (j.q, t.pt, y)))",
@@ -26,18 +30,21 @@ BODIES = {
                      "x.tr.Select(lambda t: (lambda y: y + t.q)(y))", "x.tr.Select(lambda j: j.q + y)",
                      "x.tr.Select(lambda e: (e.q, y))",
                      "x.tr.Select(lambda t: x.tr.Select(lambda t_1: (t.q, t_1.q, y)))",
-                     "x.tr.Select(lambda t, t_1=1: (t.q, t_1, y))" if False else "x.tr.Select(lambda t: (lambda t_1: (t.q, t_1, y))(2))"],
+                     "x.tr.Select(lambda t, t_1=1: (t.q, t_1, y))" if False else "x.tr.Select(lambda t: (lambda t_1: (t.q, t_1, y))(2))",
+                     "x.tr.Select(lambda t: (lambda t_1: (t.q, y))(2))"],
 }
-FORMS = ("def1", "defdoc", "lambda", "multi")
+FORMS = ("def1", "defdoc", "lambda", "multi", "effect")
 
 # call sites: lambda e over an event; {H} the helper name; argument expressions chosen so that some mention names
 # that are also bound inside helper bodies (t, j, x, y, e)
 SITES = {
     ("Int",): ["{H}(e.a)", "{H}(x=e.a)", "{H}(e.a) + {H}(e.b)", "e.jets.Select(lambda x: {H}(x.pt))",
-               "e.jets.Select(lambda y: {H}(y.pt + e.a))"],
+               "e.jets.Select(lambda y: {H}(y.pt + e.a))", "e.jets.Select(lambda t: {H}(t.pt))"],
     ("Jet",): ["e.jets.Select(lambda j: {H}(j))", "e.jets.Select(lambda x: {H}(x))", "e.jets.Select(lambda t: {H}(t))",
                "e.jets.Select(lambda j: {H}(x=j))", "e.jets.Where(lambda j: j.pt > 0).Select(lambda j: ({H}(j), e.a))"],
     ("Ev",): ["{H}(e)", "{H}(x=e)", "({H}(e), e.a)"],
+    ("Int*",): ["e.jets.Select(lambda t: {H}(t.pt)(1)(2))", "{H}(e.a)(1)(2)", "e.jets.Select(lambda t_1: {H}(t_1.pt)(1)(2))",
+                "e.jets.Select(lambda x: {H}(x.pt)(1)(2))", "e.jets.Select(lambda x_1: {H}(x_1.pt)(x_1.eta)(2))"],
     ("Int", "Int"): ["e.jets.Select(lambda x: {H}(x.pt, x.eta))", "e.jets.Select(lambda y: {H}(y.pt, y.eta))",
                      "e.jets.Select(lambda x: {H}(y=x.eta, x=x.pt))", "{H}(e.a, e.b)", "e.jets.Select(lambda x: {H}(x.pt, y=x.eta))"],
     ("Ev", "Int"): ["{H}(e, e.a)", "{H}(x=e, y=e.b)", "e.jets.Select(lambda t: {H}(e, t.pt))",
@@ -64,6 +71,9 @@ def helper_def(name, params, body, form):
     if form == "multi":
         # two statements: cannot be inlined, must be left as a call by name
         return f"def {name}({ps}):\n    result = {body}\n    return result\n"
+    if form == "effect":
+        # an expression statement with an effect before the return: not a one-line helper either
+        return f"def {name}({ps}):\n    EFFECTS.append('{name}')\n    return {body}\n"
     return f"{name} = lambda {ps}: {body}\n"
 
 
@@ -76,7 +86,7 @@ class C05(Check):
     rule = ("every helper over the parameter lists (Int), (Jet), (Ev), (Jet, Int) with every body of the menu (bare "
             "parameter, arithmetic, tuple, conditional, nested Select/Where/Count, nested lambdas re-using a parameter "
             "name, called lambdas, a comprehension, inner binders named like the caller's variables), defined as a "
-            "one-line def, a def with docstring or a lambda assigned to a name, x every call site (positional, keyword, "
+            "one-line def, a def with docstring, a lambda assigned to a name, or (not inlinable) a def with an assignment / with an effectful expression statement before the return, x every call site (positional, keyword, "
             "re-ordered keyword, mixed; one or two calls; arguments that mention names also bound inside the helper; "
             "at lambda depth 1..3), plus helpers calling helpers (depth 2). The lambda is passed as a Python callable in "
             "a generated module. Oracle: the emitted lambda, evaluated by CPython in an environment containing only "
@@ -132,7 +142,7 @@ class C05(Check):
         _N[0] += 1
         fn = f"<c05mod{_N[0]}>"
         linecache.cache[fn] = (len(text), None, text.splitlines(True), fn)
-        g = {"len": len, "list": list}
+        g = {"len": len, "list": list, "EFFECTS": []}
         exec(compile(text, fn, "exec"), g)
 
         class DS(EventDataset):
@@ -166,13 +176,22 @@ class C05(Check):
         orig = eval(compile(ast.parse(lam_src, mode="eval"), "<orig>", "eval"), g)
         nok = 0
         for d in refsem.datasets(False):
+            del g["EFFECTS"][:]
             try:
                 want = ("ok", refsem.norm(refsem.Seq(d).Select(orig)))
             except Exception:
                 continue
             nok += 1
+            eff_want = list(g["EFFECTS"])
+            del g["EFFECTS"][:]
             got = refsem.evaluate(fq, d)
             res["n"] += 1
+            if got == want and sorted(g["EFFECTS"]) != sorted(eff_want):
+                res["oc"].append("effects-differ")
+                res["viol"].append({"kind": "helper-statement-dropped", "canon": canon,
+                                    "msg": f"helper {text.split('def build')[0]!r} call {site!r} emitted {shown[:160]!r}: python runs the "
+                                           f"helper's first statement {len(eff_want)} times, the emitted expression {len(g['EFFECTS'])}"})
+                return res
             if got != want:
                 res["oc"].append("mismatch")
                 res["viol"].append({"kind": "inlined-expression-computes-something-else", "canon": canon,
